@@ -39,6 +39,10 @@ GenOK == LET e == Log[l] IN (CheckDesign /\ Has(e, "xo")) =>
 Chk2(n1, n2, c) == IF c THEN TRUE ELSE PrintT(<<"REJECT", n1, l>>) /\ PrintT(<<"REJECT", n2, l>>) /\ FALSE
 \* a clause of C15 alone, or (shared) of C09 and C15
 K(shared, name, c) == IF shared THEN Chk2("C09:" \o name, "C15:" \o name, c) ELSE Chk("C15:" \o name, c)
+\* events on an object restored from a serialized image (or combined with one) carry "restored": its family clauses then
+\* belong to C09 ("restore, then continue like the original") as well as to C15
+Rst == Has(Log[l], "restored") /\ Log[l].restored
+CK(name, c) == K(Rst, name, c)
 X(e) == ToSet(e.idx)
 CfgOf(r) == [cap |-> r.cap, hashes |-> r.hashes, seed |-> r.seedH]
 
@@ -51,7 +55,7 @@ ProjOK(r, c, b, sh) ==
   /\ K(sh, "bits", ToSet(r.bits) = b)
   /\ K(sh, "is_empty", r.empty = (b = {}))
   /\ Chk("C09:empty-image-form", r.imgEmpty = (b = {}))
-PostEmpty(e) == Chk("C15:is_empty", e.empty = (BitsOf(flt', mem', e.f) = {}))
+PostEmpty(e) == CK("is_empty", e.empty = (BitsOf(flt', mem', e.f) = {}))
 Operand(f) == Chk("harness:fresh-view", Fresh(f))
 ItemOK(e) == Chk("harness:index-list", Len(e.idx) = Cfg(e.f).hashes /\ ValidItem(Cfg(e.f), X(e)))
 \* a successful write through a view ends the pristine state of its region
@@ -79,21 +83,21 @@ TInitMem == IsEvent("InitMem") /\ LET e == Log[l]  c == CfgOf(e.r) IN
 TUpdate == IsEvent("Update") /\ LET e == Log[l] IN
   /\ Chk("harness:live-view", e.f \in Live /\ Has(e, "stale") = ~flt[e.f].fresh)
   /\ ItemOK(e)
-  /\ Chk("C15:read-only-refused", (e.out = "throw") = Refused(e.f))
+  /\ CK("read-only-refused", (e.out = "throw") = Refused(e.f))
   /\ Update(e.f, X(e), e.out) /\ DStep(D!Update(e.f, X(e))) /\ StoredOK(e, flt[e.f].at)
   /\ (flt[e.f].fresh => PostEmpty(e)) /\ Touched(e.f, e.out) /\ UNCHANGED img
 TQueryUpdate == IsEvent("QueryUpdate") /\ LET e == Log[l] IN
   /\ Operand(e.f) /\ ItemOK(e)
-  /\ Chk("C15:read-only-refused", (e.out = "throw") = Refused(e.f))
-  /\ Chk("C15:no-false-negative", e.out = "ok" /\ X(e) \in Ins(e.f) => e.ans)
-  /\ Chk("C15:query_and_update-returns-prior-membership", e.out = "ok" => e.ans = QueryAns(e.f, X(e)))
+  /\ CK("read-only-refused", (e.out = "throw") = Refused(e.f))
+  /\ CK("no-false-negative", e.out = "ok" /\ X(e) \in Ins(e.f) => e.ans)
+  /\ CK("query_and_update-returns-prior-membership", e.out = "ok" => e.ans = QueryAns(e.f, X(e)))
   /\ QueryUpdate(e.f, X(e), e.out, e.ans) /\ DStep(D!QueryUpdate(e.f, X(e))) /\ StoredOK(e, flt[e.f].at)
   /\ PostEmpty(e) /\ Touched(e.f, e.out) /\ UNCHANGED img
 TQuery == IsEvent("Query") /\ LET e == Log[l] IN
   /\ Operand(e.f) /\ ItemOK(e)
-  /\ Chk("C15:query-refused", e.out = "ok")
-  /\ Chk("C15:no-false-negative", X(e) \in Ins(e.f) => e.ans)
-  /\ Chk("C15:query", e.ans = QueryAns(e.f, X(e)))
+  /\ CK("query-refused", e.out = "ok")
+  /\ CK("no-false-negative", X(e) \in Ins(e.f) => e.ans)
+  /\ CK("query", e.ans = QueryAns(e.f, X(e)))
   /\ Query(e.f, X(e), e.ans) /\ DStep(D!Query(e.f, X(e))) /\ StoredOK(e, flt[e.f].at)
   /\ PostEmpty(e) /\ UNCHANGED <<pristine, img>>
 \* several query() calls through one fresh view in one event (replay epilogue): each answer is checked like a Query; the
@@ -102,30 +106,30 @@ TSweep == IsEvent("Sweep") /\ LET e == Log[l]  n == Len(e.idx) IN
   /\ Operand(e.f)
   /\ \A k \in 1..n : LET x == ToSet(e.idx[k]) IN
        /\ Chk("harness:index-list", Len(e.idx[k]) = Cfg(e.f).hashes /\ ValidItem(Cfg(e.f), x))
-       /\ Chk("C15:no-false-negative", x \in Ins(e.f) => e.ans[k])
-       /\ Chk("C15:query", e.ans[k] = QueryAns(e.f, x))
+       /\ CK("no-false-negative", x \in Ins(e.f) => e.ans[k])
+       /\ CK("query", e.ans[k] = QueryAns(e.f, x))
        /\ (CheckDesign => Chk("B:design-query", e.ans[k] = (~D!EmptyD(e.f) /\ x \subseteq Bits(e.f))))
   /\ Query(e.f, ToSet(e.idx[n]), e.ans[n]) /\ DStep(D!Query(e.f, ToSet(e.idx[n]))) /\ StoredOK(e, flt[e.f].at)
   /\ PostEmpty(e) /\ UNCHANGED <<pristine, img>>
 TNullItem == IsEvent("NullItem") /\ LET e == Log[l] IN
   /\ Operand(e.f)
-  /\ Chk("C15:empty-item-ignored", e.out = "ok" /\ ~e.ans)
+  /\ CK("empty-item-ignored", e.out = "ok" /\ ~e.ans)
   /\ EmptyItem(e.f, e.ans) /\ DStep(D!EmptyItem(e.f))
   /\ PostEmpty(e) /\ UNCHANGED <<pristine, img>>
 TBitsUsed == IsEvent("BitsUsed") /\ LET e == Log[l] IN
   /\ Operand(e.f)
-  /\ Chk("C15:bits-used", e.n = BitsUsedAns(e.f))
+  /\ CK("bits-used", e.n = BitsUsedAns(e.f))
   /\ BitsUsed(e.f, e.n) /\ DStep(D!BitsUsed(e.f)) /\ StoredOK(e, flt[e.f].at)
   /\ PostEmpty(e) /\ UNCHANGED <<pristine, img>>
 TObs == IsEvent("Obs") /\ LET e == Log[l] IN
   /\ Operand(e.f)
-  /\ ProjOK(e.r, Cfg(e.f), Bits(e.f), FALSE)
-  /\ Chk("C15:read-only-flag", e.r.ro = flt[e.f].ro /\ (flt[e.f].at # Own => e.r.wrapped))
-  /\ Chk("C15:memory-bits", Has(e, "membits") => ToSet(e.membits) = Bits(e.f))
+  /\ ProjOK(e.r, Cfg(e.f), Bits(e.f), Rst)
+  /\ CK("read-only-flag", e.r.ro = flt[e.f].ro /\ (flt[e.f].at # Own => e.r.wrapped))
+  /\ CK("memory-bits", Has(e, "membits") => ToSet(e.membits) = Bits(e.f))
   /\ UNCHANGED <<flt, mem, out, pristine, img, book, stored>>
 SetOpOK(e) == /\ Operand(e.f) /\ Operand(e.g)
-              /\ Chk("C15:is_compatible", e.compatible = Compatible(e.f, e.g))
-              /\ Chk("C15:incompatible-or-read-only-refused", (e.out = "throw") = (~Compatible(e.f, e.g) \/ Refused(e.f)))
+              /\ CK("is_compatible", e.compatible = Compatible(e.f, e.g))
+              /\ CK("incompatible-or-read-only-refused", (e.out = "throw") = (~Compatible(e.f, e.g) \/ Refused(e.f)))
 TUnion == IsEvent("Union") /\ LET e == Log[l] IN
   /\ SetOpOK(e) /\ Union(e.f, e.g, e.out) /\ DStep(D!Union(e.f, e.g)) /\ StoredOK(e, flt[e.f].at)
   /\ PostEmpty(e) /\ Touched(e.f, e.out) /\ UNCHANGED img
@@ -134,24 +138,24 @@ TIntersect == IsEvent("Intersect") /\ LET e == Log[l] IN
   /\ PostEmpty(e) /\ Touched(e.f, e.out) /\ UNCHANGED img
 TInvert == IsEvent("Invert") /\ LET e == Log[l] IN
   /\ Operand(e.f)
-  /\ Chk("C15:read-only-refused", (e.out = "throw") = Refused(e.f))
+  /\ CK("read-only-refused", (e.out = "throw") = Refused(e.f))
   /\ Invert(e.f, e.out) /\ DStep(D!Invert(e.f)) /\ StoredOK(e, flt[e.f].at)
   /\ PostEmpty(e) /\ Touched(e.f, e.out) /\ UNCHANGED img
 TReset == IsEvent("Reset") /\ LET e == Log[l] IN
   /\ Operand(e.f)
-  /\ Chk("C15:read-only-refused", (e.out = "throw") = Refused(e.f))
+  /\ CK("read-only-refused", (e.out = "throw") = Refused(e.f))
   /\ Reset(e.f, e.out) /\ DStep(D!Reset(e.f)) /\ StoredOK(e, flt[e.f].at)
   /\ PostEmpty(e) /\ Touched(e.f, e.out) /\ UNCHANGED img
 TCopy == IsEvent("Copy") /\ LET e == Log[l] IN
   /\ Operand(e.f)
-  /\ ProjOK(e.r, Cfg(e.f), Bits(e.f), FALSE)
-  /\ Chk("C15:read-only-flag", e.r.ro = flt[e.f].ro /\ (flt[e.f].at # Own => e.r.wrapped))
+  /\ ProjOK(e.r, Cfg(e.f), Bits(e.f), Rst)
+  /\ CK("read-only-flag", e.r.ro = flt[e.f].ro /\ (flt[e.f].at # Own => e.r.wrapped))
   /\ Copy(e.f, e.g) /\ DStep(D!Copy(e.f, e.g)) /\ StoredOK(e, flt[e.f].at)
   /\ UNCHANGED <<pristine, img>>
 TMove == IsEvent("Move") /\ LET e == Log[l] IN
   /\ Operand(e.f)
-  /\ ProjOK(e.r, Cfg(e.f), Bits(e.f), FALSE)
-  /\ Chk("C15:read-only-flag", e.r.ro = flt[e.f].ro /\ (flt[e.f].at # Own => e.r.wrapped))
+  /\ ProjOK(e.r, Cfg(e.f), Bits(e.f), Rst)
+  /\ CK("read-only-flag", e.r.ro = flt[e.f].ro /\ (flt[e.f].at # Own => e.r.wrapped))
   /\ Move(e.f, e.g) /\ DStep(D!Move(e.f, e.g))
   /\ UNCHANGED <<pristine, img>>
 TDrop == IsEvent("Drop") /\ LET e == Log[l] IN Drop(e.f) /\ DStep(D!Drop(e.f)) /\ UNCHANGED <<pristine, img>>
@@ -164,7 +168,7 @@ TSer == IsEvent("Ser") /\ LET e == Log[l] IN
   /\ Chk("C09:image-config", e.imgCap = Cfg(e.f).cap /\ e.imgHashes = Cfg(e.f).hashes /\ e.imgSeedH = Cfg(e.f).seed)
   /\ Chk2("C09:image-bits", "C15:image-bits", ToSet(e.bits) = Bits(e.f))
   /\ Chk("C09:empty-image-form", e.imgEmpty = (Bits(e.f) = {}))
-  /\ Chk("C15:is_empty", e.empty = (Bits(e.f) = {}))
+  /\ CK("is_empty", e.empty = (Bits(e.f) = {}))
   /\ Ser(e.f, e.m, e.imgEmpty) /\ DStep(D!Ser(e.f, e.m)) /\ StoredOK(e, e.m)
   /\ pristine' = pristine \cup {e.m} /\ img' = (e.m :> e.img) @@ img
 TDeser == IsEvent("Deser") /\ LET e == Log[l] IN
